@@ -97,7 +97,9 @@ func build(id string, race bool) (string, error) {
 		os.WriteFile(filepath.Join(dir, "go.mod"), bytes.ReplaceAll(gm, []byte("=> /repo"), []byte("=> "+t)), 0644)
 		gs, _ := os.ReadFile(filepath.Join(verifDir, "go.sum"))
 		os.WriteFile(filepath.Join(dir, "go.sum"), gs, 0644)
-		args = append(args, "-modfile", filepath.Join(dir, "go.mod"))
+		// -trimpath: the packages of the other tree that are identical to ones built before (other scratch worktrees)
+		// come from the build cache instead of being compiled again under their new directory
+		args = append(args, "-trimpath", "-modfile", filepath.Join(dir, "go.mod"))
 		bin += fmt.Sprintf("-tree-%x", h[:4])
 	}
 	if race {
